@@ -16,6 +16,7 @@ import (
 	"sort"
 	"strconv"
 	"strings"
+	"sync"
 	"time"
 
 	"github.com/buildbuildio/pebbles/common"
@@ -447,6 +448,7 @@ func cmdStress(args []string) {
 		s.Perturb(rng.Int63(), 1+rng.Intn(3))
 		install(s)
 		dr := rand.New(rand.NewSource(rng.Int63()))
+		var drMu sync.Mutex
 		mode := rng.Intn(3)
 		runtime.Gosched()
 		baseline := runtime.NumGoroutine()
@@ -460,7 +462,10 @@ func cmdStress(args []string) {
 				runtime.Gosched()
 			case 2:
 				s.Note("delay")
-				time.Sleep(time.Duration(dr.Intn(300)) * time.Microsecond)
+				drMu.Lock()
+				d := time.Duration(dr.Intn(300)) * time.Microsecond
+				drMu.Unlock()
+				time.Sleep(d)
 			}
 		})
 		so := stressOut{Run: k, N: n}
